@@ -348,8 +348,9 @@ class C19(Harness):
         results2 = res.RAMResults()
         est.STATE.update(n=0, K=None, fits=0, predicts=0, log=[])
         cv2 = split.SingleSplit(test_size=2, train_size=3, random_state=7, shuffle=True)  # (explicit sizes that do not cover all six instances)
-        o2 = orch.Orchestrator([tasks.TSRTask(target="target", features=["dim_0"]), tasks.TSRTask(target="target", features=["dim_0"])],
-                               [data.RAMDataset(df2, "dsA"), data.RAMDataset(df2, "dsB")],
+        # (the datasets are NOT given in alphabetical order and their tasks differ: each dataset keeps its own task)
+        o2 = orch.Orchestrator([tasks.TSRTask(target="target", features=["dim_0"]), tasks.TSRTask(target="target", features=["noise"])],
+                               [data.RAMDataset(df2, "dsB"), data.RAMDataset(df2, "dsA")],
                                [strat.TSRStrategy(est.CountingRegressor(slope=2.0), name="s1"), strat.TSRStrategy(est.CountingRegressor(slope=3.0), name="s2")], cv2, results2)
         o2.fit_predict(predict_on_train=False, save_fitted_strategies=False)
         # (c) default features (all columns but the target) keep the frame's own column order
@@ -444,7 +445,8 @@ class C19(Harness):
             for sname, dname, idx, yt, yp in out["shuffled"]:
                 slope = 2.0 if sname == "s1" else 3.0
                 P.check("stored-record-is-honest", idx == list(te2), {"what": "the seeded fold is the same for every strategy and dataset", "strategy": sname, "dataset": dname, "index": idx, "want": list(te2)})
-                P.check("stored-record-is-honest", yt == [t[i] for i in idx] and yp == [slope * x[i] + len(tr2) + 100 * x[tr2[0]] for i in idx], {"what": "prediction from the task's feature columns", "strategy": sname, "y_pred": yp})
+                xf = x if dname == "dsB" else [float(50 - 7 * i) for i in range(6)]  # dsB's task names dim_0, dsA's task names noise
+                P.check("stored-record-is-honest", yt == [t[i] for i in idx] and yp == [slope * xf[i] + len(tr2) + 100 * xf[tr2[0]] for i in idx], {"what": "prediction from the dataset's own task's feature columns", "strategy": sname, "dataset": dname, "y_pred": yp})
             return
         # resume
         K = inp["K"]
